@@ -671,7 +671,7 @@ func runLO(ctx context.Context, w *rec.Writer, r *rec.Rand, g *rig, s *scen.Scen
 					var objs []string
 					ec := 6 // not run: an earlier call of this engine family did not return on this relation
 					if !(e.Pipe && hung[td.Name+"#"+rd.Name]) {
-						objs, ec = listObjects(ctx, env, g.chain(3, defaultTuning).r, e, td.Name, rd.Name, sub, breadth)
+						objs, ec = listObjects(ctx, env, g.chain(0, defaultTuning).r, e, td.Name, rd.Name, sub, breadth)
 						if ec == 5 {
 							hung[td.Name+"#"+rd.Name] = true
 						}
